@@ -23,6 +23,7 @@ structure ExecRef (A B : NumSem) : Prop where
   store : ∀ fn m ea v, Out.NoUB (A.storeT fn m ea v) → B.storeT fn m ea v = A.storeT fn m ea v
   grow : B.grow = A.grow
   bulk : ∀ op m a b c, Out.NoUB (A.bulkT op m a b c) → B.bulkT op m a b c = A.bulkT op m a b c
+  rmw : ∀ fn m ea args, Out.NoUB (A.rmwT fn m ea args) → B.rmwT fn m ea args = A.rmwT fn m ea args
 
 theorem exec_refine (A B : NumSem) (hab : ExecRef A B) : ∀ f,
     (∀ out σ r, execSeq A f out σ = r → r ≠ .stuck → execSeq B f out σ = r) ∧
@@ -158,6 +159,13 @@ theorem exec_refine (A B : NumSem) (hab : ExecRef A B) : ∀ f,
         | val v => rw [hab.bulk _ _ _ _ _ (by rw [hv]; trivial), hv]; rw [hv] at h; exact h
         | trap t => rw [hab.bulk _ _ _ _ _ (by rw [hv]; trivial), hv]; rw [hv] at h; exact h
         | oof => rw [hab.bulk _ _ _ _ _ (by rw [hv]; trivial), hv]; rw [hv] at h; exact h
+      | rmw dst fn addr off args =>
+        simp only [execStmt] at h ⊢
+        cases hv : A.rmwT fn σ.store.g.mem ((σ.get addr).bits + off) (args.map σ.get) with
+        | ub k => rw [hv] at h; exact absurd h.symm hr
+        | val v => rw [hab.rmw _ _ _ _ (by rw [hv]; trivial), hv]; rw [hv] at h; exact h
+        | trap t => rw [hab.rmw _ _ _ _ (by rw [hv]; trivial), hv]; rw [hv] at h; exact h
+        | oof => rw [hab.rmw _ _ _ _ (by rw [hv]; trivial), hv]; rw [hv] at h; exact h
       | _ => simp only [execStmt] at h ⊢; exact h
 
 /-- whole functions: a result other than `stuck` is preserved -/
